@@ -263,7 +263,7 @@ class Resolver:
         m = re.match(r'^<(.+) as ([\w:]+)(?:<.*>)?>::(\w+)$', base)
         if m:
             ty = norm_type(m.group(1)); trait = m.group(2).rsplit('::', 1)[-1]; meth = m.group(3)
-            if re.match(r'^&?[A-Z]\w?$|^&?Self$|^CF$', ty): return ('dyn', trait, meth, ty.lstrip('&'))
+            if re.match(r'^&?[A-Z]\w?$|^&?Self$|^CF$', ty) or ty.lstrip('&') in self.tymap: return ('dyn', trait, meth, ty.lstrip('&'))
             try: return self.method(ty.lstrip('&'), meth, trait)
             except Unsupported: return None
         # path::Type::method  (inherent)
